@@ -142,6 +142,7 @@ type FnVC struct {
 	litOrd map[*ssa.Alloc]int
 	LitProp string
 	lemmaName string
+	addrIDs map[string]int
 	havocs []havocRec
 	initOnly map[string]bool
 	provingLemma *Axiom
@@ -455,6 +456,8 @@ func (v *FnVC) ptrTerm(l *Loc) string {
 	if l.Opaque != "" {
 		return l.Opaque
 	}
+	// one address function per (location kind, key, path shape); an id and inverse functions make addresses of
+	// different shapes / different objects / different indices distinct (injectivity by instance axioms)
 	name := "addr_" + sanitize(l.Key)
 	args := []string{l.Ref}
 	sig := []string{"Int"}
@@ -479,9 +482,28 @@ func (v *FnVC) ptrTerm(l *Loc) string {
 	if len(args) == 0 {
 		t = name
 	}
+	if v.implFacts["addr:"+t] {
+		return t
+	}
+	v.implFacts["addr:"+t] = true
+	if v.addrIDs == nil {
+		v.addrIDs = map[string]int{}
+	}
+	id, ok := v.addrIDs[name]
+	if !ok {
+		id = len(v.addrIDs) + 1
+		v.addrIDs[name] = id
+	}
+	v.S.declFun("addr_shape", "(Int) Int")
 	// interior pointers are non-nil; they live in the negative range so that they never coincide with an allocated
 	// object (frames and freshness talk about refs > 0)
 	v.asserts = append(v.asserts, fmt.Sprintf("(< %s 0)", t))
+	v.asserts = append(v.asserts, fmt.Sprintf("(= (addr_shape %s) %d)", t, id))
+	for k, a := range args {
+		inv := fmt.Sprintf("addr_arg%d", k)
+		v.S.declFun(inv, "(Int) Int")
+		v.asserts = append(v.asserts, fmt.Sprintf("(= (%s %s) %s)", inv, t, a))
+	}
 	return t
 }
 
